@@ -101,3 +101,10 @@ prop("C20",
                   "NOT decided: the blocking client completing its handshake against the simulator under every loss pattern within the retry budget (liveness across two engine threads); the per-datagram reassembly step it relies on is proved (shared with C01)",
                   "'retransmitted exactly N times' is read per engine iteration: one retransmission per consumed retry, removal at retry 0"],
      explanation="per-step contracts of one engine iteration under a ghost clock: FIFO + throttle + time-stamp of _process_send_requests, first-match dispatch by loop invariant over a list of any length with an uninterpreted acceptance predicate, exception containment, retry accounting, cleanup; lexical lock domination")
+
+prop("C13",
+     level="proof",
+     assumptions=["spa model (ASSUMED, outside the code): the spa applies a set-value word at the written position and echoes it as a partial update; a key press toggles the device it belongs to",
+                  "the request engine (retry, lock) is the contract proved in C06; here it is a stand-in that builds the request once",
+                  "commands are issued while connected and answering pings (the gates are C06)"],
+     explanation="switch/pump/heater/watercare command contracts over the whole device table and every current state; SPACK/SETWC bytes with symbolic pack type, versions, position, word and the real sequence counter inlined; accessor -> spa -> echo -> read-back per command item shape")
